@@ -26,3 +26,13 @@ package types
 
 //@ func MsgSetConsumerCommissionRate.ValidateBasic
 //@ ensures [signer-is-validator] result == nil ==> validateProviderAddress(msg.ProviderAddr, msg.Signer) == nil
+
+// ---------------------------------------------------------------- C03 / C04 / C14: message-level validation of power-shaping parameters
+
+//@ func ValidateConsAddressList pure modular
+//@ ensures [frame] true
+
+//@ func ValidatePowerShapingParameters
+//@ ensures [topn-range] result == nil ==> powerShapingParameters.Top_N == 0 || (50 <= powerShapingParameters.Top_N && powerShapingParameters.Top_N <= 100)
+//@ ensures [power-cap-range] result == nil ==> powerShapingParameters.ValidatorsPowerCap <= 100
+//@ ensures [lists-validated] result == nil ==> ValidateConsAddressList(powerShapingParameters.Allowlist, MaxValidatorCount) == nil && ValidateConsAddressList(powerShapingParameters.Denylist, MaxValidatorCount) == nil && ValidateConsAddressList(powerShapingParameters.Prioritylist, MaxValidatorCount) == nil
